@@ -4,18 +4,8 @@ use rs1090::data::tail::{hl_reg, ja_reg, n_reg};
 
 include!("gen/patterns_tab.rs");
 
-/// country tag of the FIRST address block containing h (what aircraft_information reports)
-fn country_tag(h: u32) -> u8 {
-    let mut i = 0;
-    while i < BLOCKS.len() {
-        if h >= BLOCKS[i].0 && h <= BLOCKS[i].1 { return BLOCKS[i].2; }
-        i += 1;
-    }
-    255
-}
-
 harness! {
-    #[kani::unwind(12)]
+    #[kani::unwind(30)]
     /// ja_reg on ALL 2^32 arguments with its real string building: no panic; and the result
     /// has a left inverse (independent parser), hence two addresses never share a JA registration;
     /// prefix "JA"; address inside Japan's block
